@@ -405,3 +405,8 @@ Proof.
   - cbn [app]. rewrite (number_none 10 r Hr). reflexivity.
   - rewrite (number_spec 10 (d :: ds) r) by (auto; discriminate). reflexivity.
 Qed.
+
+Print Assumptions def_rulelist.
+Print Assumptions def_hex_val.
+Print Assumptions D_ref_inv.
+Print Assumptions number_spec.
